@@ -272,6 +272,23 @@ class Colour(enum.Enum):
         return (self, k)
 
 
+CALLBACKS = {"k": lambda y: [y]}   # a function nothing names (no module global, no attribute, in no caller's locals)
+
+
+def call_back(v):
+    return CALLBACKS["k"](v)
+
+
+def gen_container_then_element(n):
+    # one call yields a container first and then a value of the container's own parameter type
+    yield [n]
+    yield n
+    yield {"k": n}
+    yield "k"
+    yield (n, "k")
+    return n
+
+
 def make_fact():
     # a self-recursive closure that no caller keeps in a local: only its OWN frame's locals (the free variable `fact`) name it
     def fact(n):
@@ -305,5 +322,5 @@ NESTING_CALLS = [
     "M.use_prop(1)", "M.use_prop([1])", "M.lam_user(2)", "M.mid_catches(None)", "getattr(M.Prop(1), 'broken', None)",
     "M.mutate_and_return([1])", "M.fill_dict({'k1': 0})", "list(M.gen_mutating([]))",
     "M.AbcShape.make(1)", "M.AbcSquare().area(2)", "M.AbcSquare.build(3)", "M.Colour.parse('x')", "M.Colour.RED.shade(1)",
-    "M.make_fact()(3)", "M.show(1)", "M.show('a')", "M.show(2.5)", "M.show(2)",
+    "M.call_back(1)", "M.CALLBACKS['k']('s')", "list(M.gen_container_then_element(1))", "M.make_fact()(3)", "M.show(1)", "M.show('a')", "M.show(2.5)", "M.show(2)",
 ]
